@@ -202,10 +202,18 @@ pub fn run_check(id: &str, tier: &str) -> i32 {
     }
     let t0 = Instant::now();
     let thorough = tier == "thorough";
-    let base_seed: u64 = std::env::var("VERIF_SEED").ok().and_then(|s| s.parse().ok()).unwrap_or(20260921);
-    let budget_s: u64 = std::env::var("VERIF_BUDGET_S").ok().and_then(|s| s.parse().ok()).unwrap_or(if thorough { 300 } else { 40 });
+    let base_seed: u64 = std::env::var("VERIF_SEED").ok().and_then(|s| s.parse().ok()).unwrap_or(1);
+    // fixed number of runs per tier (~40 s / ~300 s on the reference VM); wall-clock cap only as a safety net;
+    // VERIF_BUDGET_S alone keeps the old "as many as fit" behaviour for sweeps
+    let budget_env: Option<u64> = std::env::var("VERIF_BUDGET_S").ok().and_then(|s| s.parse().ok());
+    let budget_s: u64 = budget_env.unwrap_or(if thorough { 1500 } else { 200 });
     let workers: usize = std::env::var("VERIF_WORKERS").ok().and_then(|s| s.parse().ok()).unwrap_or(8);
-    println!("osim: property={} tier={} VERIF_SEED={} budget={}s workers={}", id, tier, base_seed, budget_s, workers);
+    let q_runs: u64 = if id == "C20" { 8000 } else { 2000 };
+    let max_runs: u64 = std::env::var("VERIF_MAX_RUNS")
+        .ok()
+        .and_then(|s| s.parse().ok())
+        .unwrap_or(if budget_env.is_some() { u64::MAX } else if thorough { q_runs * 8 } else { q_runs });
+    println!("osim: property={} tier={} VERIF_SEED={} runs={} cap={}s workers={}", id, tier, base_seed, if max_runs == u64::MAX { "unbounded".to_string() } else { max_runs.to_string() }, budget_s, workers);
     let deadline = t0 + Duration::from_secs(budget_s);
     let next = AtomicU64::new(0);
     struct Agg {
@@ -227,6 +235,9 @@ pub fn run_check(id: &str, tier: &str) -> i32 {
                     break;
                 }
                 let i = next.fetch_add(1, Ordering::SeqCst);
+                if i >= max_runs {
+                    break;
+                }
                 let seed_r = crate::mix(crate::mix(base_seed, idh), i);
                 let r = run_one(id, seed_r, 100);
                 let again = if i % 50 == 7 { Some(run_one(id, seed_r, 100)) } else { None };
@@ -271,7 +282,7 @@ pub fn run_check(id: &str, tier: &str) -> i32 {
             new_by_rule.entry(f.rule.clone()).or_default().push((*s, f.clone(), p.clone()));
         }
     }
-    let replay_dir = verif_root().join("replays");
+    let replay_dir = std::env::var("VERIF_REPLAY_DIR").map(PathBuf::from).unwrap_or_else(|_| verif_root().join("replays"));
     let _ = std::fs::create_dir_all(&replay_dir);
     let mut lines = Vec::new();
     for (rule, list) in new_by_rule.iter() {
@@ -321,7 +332,7 @@ pub fn run_check(id: &str, tier: &str) -> i32 {
         "wall_s": wall,
         "violations": new_by_rule.len(),
     });
-    let evdir = verif_root().join("evidence");
+    let evdir = std::env::var("VERIF_EVIDENCE_DIR").map(PathBuf::from).unwrap_or_else(|_| verif_root().join("evidence"));
     let _ = std::fs::create_dir_all(&evdir);
     std::fs::write(evdir.join(format!("{}.json", id)), serde_json::to_vec_pretty(&ev).unwrap()).expect("evidence");
     println!("osim: {} runs, {} distinct non-trivial, {:.1}s, violations={}, known={}, harness_errors={}, nondet={}", a.runs, a.keys.len(), wall, new_by_rule.len(), known_hits.len(), a.errors.len(), a.nondet);
